@@ -119,7 +119,8 @@ def c17_streams(tier, rng):
             cases.append(("dac%d" % did, "dac", "-", {}, [], ops))
             imgcases.append(("dimg%d" % did, "dacimg", "-", {}, [], [["dimg", logr, enc]]))
             did += 1
-    return [StreamSet("codecs", "asan", cases), StreamSet("dac-image", "asan", imgcases, phase2=dacimg_phase2)]
+    return [StreamSet("codecs", "asan", cases), StreamSet("dac-image", "asan", imgcases, phase2=dacimg_phase2),
+            StreamSet("dac-bvls", "asan", bvls_cases(tier, rng, 40 if tier == "thorough" else 12), phase2=bvls_phase2, timeout=60)]
 
 
 def dacimg_phase2(case, impl_lines):
@@ -1583,6 +1584,41 @@ def rpfc_cases(tier, rng, k):
         bs = sorted(set([2, 3, 4, r.choice([5, 8, 16]), max(2, n), n + 1]))
         for b in (bs if tier == "thorough" else r.sample(bs, min(3, len(bs)))):
             cases.append(("rf_%s_b%d" % (name, b), "rpfc", "RPFC", {"b": b}, S, [["rf", qh, ph], ["reload"], ["rf", qh, ph]]))
+    return cases
+
+
+
+def bvls_phase2(case, impl_lines):
+    """The DAC_BVLS of a real HASHUFFDAC dictionary -> the Lean validator (layout = DAC.build of its sequences)."""
+    ops = []
+    k = 0
+    for l in impl_lines:
+        t = l.split()
+        if k >= len(case[5]):
+            break
+        if len(t) >= 9 and t[1] == "BV":
+            d = dict(x.split("=", 1) for x in t[2:])
+            ops.append(["bvchk"] + [d.get(f, "-") for f in ("n", "tam", "idx", "bits", "rl", "lv", "acc", "nxt")])
+            k += 1
+        elif len(t) >= 2 and t[1] == "RQ":
+            ops.append(["rdskip"])
+            k += 1
+        elif not l.startswith("FAULT"):
+            ops.append(["bvchk"] + ["-"] * 8)
+            k += 1
+    while len(ops) < len(case[5]):
+        ops.append(["bvchk"] + ["-"] * 8)
+    return ops
+
+
+def bvls_cases(tier, rng, k):
+    cases = []
+    r = rng.fork("bvls")
+    for name, S in small_battery(tier, rng, k):
+        if sum(len(s) + 1 for s in S) > 20000:
+            continue
+        for ov in ((0, 25, 100) if tier == "thorough" else (r.choice([0, 25]),)):
+            cases.append(("bv_%s_%d" % (name, ov), "bvls", "HASHUFFDAC", {"ov": ov}, S, [["bv"], ["reload"], ["bv"]]))
     return cases
 
 
